@@ -107,6 +107,14 @@ def analyse_exact_read(ctx, func, cls=None):
             acc = n.targets[0].id
     if acc is None:
         res.problems.append('received chunks are not accumulated')
+    else:
+        # the accumulator belongs to this call: it is (re)created by an assignment in the function body before the loop - not a parameter (a mutable
+        # default is one object shared by every call), not a global / attribute (bytes left by an aborted read would open the next one)
+        params = set(func.all_params()) if hasattr(func, 'all_params') else set(func.params)
+        fresh = [st for st in func.node.body if isinstance(st, ast.Assign) and any(is_name(tg, acc) for tg in st.targets) and st.lineno < loop.lineno]
+        if '.' in acc or not fresh:
+            res.problems.append(f'the receive buffer `{acc}` is not created afresh by every call (a parameter with a mutable default, a global or an attribute): the bytes '
+                                'received before a truncated frame raised ConnectionClosedError stay in it and become the beginning of the next message read in this process')
     # loop condition: len(acc) < size   |   counter (truthiness / > 0)
     t = loop.test
     size_expr = None
